@@ -40,12 +40,14 @@ CLAIMED = {
          "Exploration (exact trace equality per scenario).", "As C01."),
  "C17": ("mt", "real-thread blocking-API monitor: std threads / spawn_blocking / runtime workers call blocking_tell/ask (with and without timeout, deprecated aliases, erased forwarders) against live, gated-full, dying and dead actors; the MT forms of the delivery/order/integrity/dead-letter oracles plus wall-clock deadline checks guarded by a heartbeat",
          "Exploration on real threads; deadlines restated as bounded progress (timeout + 2 s) under a heartbeat guard; 'never early' is exact (monotonic clock).", "As C01; wall-clock bounds are evaluated only while the heartbeat shows the machine was not stalled (max lateness < 250 ms)."),
+ "C18": ("featdiff", "differential oracle across feature builds: harness binaries built against rsactor with different subsets of {tracing, metrics, test-utils, deadlock-detection} run identical seeded cycle-free scenarios; per-scenario canonical trace hashes must equal the default-feature build's",
+         "Exploration (exact trace equality per scenario and feature set; quick: default, all four, one seed-chosen subset; thorough: all 16 subsets).", "SIM determinism (single thread, virtual clock) makes equality exact; metric values and wall-clock measurements are not part of the trace."),
+ "C19": ("gen+sim", "generated-program oracle: grammar-based corpus of actors/handlers compiled against /repo and executed through ask and tell under a capturing tracing Subscriber; expectations come from the documented decision table; negative programs must fail to compile, positive controls must compile; on_tell_result exactly-once-after-tell checked on SIM traces",
+         "Exploration over generated programs (translation-validation flavour: each handler's Reply type is checked at compile time, its value against a direct method call).", "Expectation table transcribed from docs/tell_error_logging.md and the property statement, not from the macro source."),
  "C20": ("sim+mt", "metrics samples at quiescent instants compared with handler-entry counts from the trace; monotonicity; avg<=max; max >= self-measured handler time; snapshot==accessors; post-mortem reads",
          "Exploration.", "Requires the metrics feature build; wall-clock only used as a lower bound."),
 }
 NOT_YET = {
- "C18": "cross-feature differential runs not wired up yet in this revision (planned: DIFF across builds)",
- "C19": "generated macro corpus not implemented yet in this revision (planned: GEN)",
 }
 def main():
     checks=[]
@@ -73,6 +75,10 @@ def main():
      },
      "engines":[
         {"name":"sim","path":"harness/src/sim.rs","serves_properties":[p for p in sorted(CLAIMED) if "sim" in CLAIMED[p][0]],"kind_free_text":"deterministic simulation: real rsactor code on a single-thread paused-clock tokio runtime, seeded scripted actors/clients, quiescence by long virtual sleeps, trace oracles in harness/src/check.rs"},
+        {"name":"featdiff","path":"lib/orchestrate.py","serves_properties":["C18"],"kind_free_text":"cross-build differential driver around the SIM engine"},
+        {"name":"gen","path":"gen/macro_corpus.py","serves_properties":["C19"],"kind_free_text":"grammar-based generator of actor programs for the proc macros + runner"},
+        {"name":"laws","path":"harness/src/laws.rs","serves_properties":["C05","C10"],"kind_free_text":"exhaustive accessor laws"},
+        {"name":"probe","path":"harness/src/probe.rs","serves_properties":["C09"],"kind_free_text":"fresh-process probes of once-per-process configuration"},
         {"name":"mt","path":"harness/src/mt.rs","serves_properties":[p for p in sorted(CLAIMED) if "mt" in CLAIMED[p][0]],"kind_free_text":"real-thread rounds on multi-thread tokio runtimes with heartbeat/watchdog; same event model, interval-mode oracles"},
      ],
      "checks":checks,
